@@ -69,7 +69,18 @@ func newDataStoreSet(l lane.Lane, basePath string, phook *DispatchHook) *dataSto
 }
 
 func (dss *dataStoreSet) save(l lane.Lane) error {
+	// SELECT adds databases to the table under dss.mu while the saver runs
+	dss.mu.Lock()
+	indexes := make([]int, 0, len(dss.dbs))
+	all := make([]*dataStore, 0, len(dss.dbs))
 	for index, ds := range dss.dbs {
+		indexes = append(indexes, index)
+		all = append(all, ds)
+	}
+	dss.mu.Unlock()
+
+	for i, ds := range all {
+		index := indexes[i]
 		dsc := ds.newDataStoreCommand()
 		err := dsc.save(l, dss.dataStoreFileName(index))
 		if err != nil {
